@@ -878,6 +878,11 @@ def Prim.inRange : Prim → Bool
   | .f64 l => allLt 18446744073709551616 l
   | _ => true
 
+/-- fixed-width binary value variants -/
+def Prim.binKind : Prim → Bool
+  | .u8 _ | .u16 _ | .u32 _ | .u64 _ | .f32 _ | .f64 _ => true
+  | _ => false
+
 /-- the value variants that belong to a VR: what the decoders of dicom-rs produce for it, plus the
 textual form (`Str`/`Strs`) for the VRs that are text in the file encoding, and raw bytes for the
 binary VRs.  `Empty` belongs to every VR. -/
@@ -946,32 +951,34 @@ end
 /-- `"NaN".parse()` gives the canonical quiet NaN: sign and payload of a NaN are not kept -/
 def canonNaN (F : Fmt) (x : Nat) : Nat := if isNaN F x then F.nanBits else x
 
-/-- * text VRs and PN: `Strs` of `to_multi_str()` — trailing spaces/NULs removed, `Str` becomes a
+/-- (`normPrimNE`: values with at least one item)
+    * text VRs and PN: `Strs` of `to_multi_str()` — trailing spaces/NULs removed, `Str` becomes a
     one-item `Strs`, dates/times become their DICOM text;
     * IS and DS: the strings as they are, binary `I32`/`F64` become numeric strings;
     * binary VRs: the little-endian bytes as `U8`;
     * FL/FD: any NaN becomes the canonical NaN;
     * a value without items (a vector of length 0) becomes `Empty`; an empty value under VR SQ
       becomes a sequence without items;  everything else is unchanged. -/
+def normPrimNE (vr : VR) (p : Prim) : Prim :=
+  match serClass vr with
+  | .binary => .u8 (toBytes p)
+  | .strings =>
+    (match p with
+     | .tags l => .tags l
+     | p => .strs (toMultiStr p))
+  | .person => .strs (toMultiStr p)
+  | .numbers =>
+    (match p with
+     | .strs l => .strs l
+     | .str s => .strs [s]
+     | .f32 l => .f32 (l.map (canonNaN b32))
+     | .f64 l => if vr == .DS then .strs (l.map (display b64)) else .f64 (l.map (canonNaN b64))
+     | .i32 l => if vr == .IS then .strs (l.map fun i => display b64 (castInt b64 i)) else .i32 l
+     | p => p)
+  | .sq => p
+
 def normPrim (vr : VR) (p : Prim) : Prim :=
-  if !p.nonEmpty then .empty
-  else
-    match serClass vr with
-    | .binary => .u8 (toBytes p)
-    | .strings =>
-      (match p with
-       | .tags l => .tags l
-       | p => .strs (toMultiStr p))
-    | .person => .strs (toMultiStr p)
-    | .numbers =>
-      (match p with
-       | .strs l => .strs l
-       | .str s => .strs [s]
-       | .f32 l => .f32 (l.map (canonNaN b32))
-       | .f64 l => if vr == .DS then .strs (l.map (display b64)) else .f64 (l.map (canonNaN b64))
-       | .i32 l => if vr == .IS then .strs (l.map fun i => display b64 (castInt b64 i)) else .i32 l
-       | p => p)
-    | .sq => p
+  if !p.nonEmpty then .empty else normPrimNE vr p
 
 mutual
 def normElem : Elem → Elem
